@@ -215,6 +215,8 @@ func table(c *core.Ctx, it *interp, wrap, gmk *core.Fn) ([]entry, token.Pos) {
 			}
 			if ie, ok := ast.Unparen(src).(*ast.IndexExpr); ok {
 				mapObj = core.ObjOf(info, ie.X)
+			} else if m, _, ok := lookupHelper(c, info, src); ok { // the lookup lives in a helper
+				mapObj = m
 			}
 		}
 	}
